@@ -1796,6 +1796,15 @@ class Dosini(object):
                 cfg.write(f)
 
     @classmethod
+    def _bool_to_str(cls, value):
+        # type: (Union[bool, str]) -> str
+        """Converts a boolean to its DOSINI representation, leaves anything else (e.g. a reference to a variable
+        whose name may contain upper-case letters) untouched"""
+        if isinstance(value, bool):
+            return str(value).lower()
+        return str(value)
+
+    @classmethod
     def _translate_dict_to_dict(
             cls,  # type: Type[Dosini]
             field,  # type: Dict[str, Any]
@@ -1847,9 +1856,9 @@ class Dosini(object):
                 'repeatRetries': lambda key, value: {key: str(value)},
                 'maxRestarts': lambda key, value: ({'max-restarts': str(value)} if value is not None else {}),
                 'replicate': lambda key, value: {key: str(value)},
-                'aggregate': lambda key, value: {key: str(value).lower()},
+                'aggregate': lambda key, value: {key: cls._bool_to_str(value)},
                 'repeatInterval': lambda key, value: {'repeat-interval': str(value)},
-                'isMigratable': lambda key, value: {key: str(value).lower()},
+                'isMigratable': lambda key, value: {key: cls._bool_to_str(value)},
             }
         )
 
@@ -1860,7 +1869,7 @@ class Dosini(object):
                 required={
                 },
                 optional={
-                    'disable': lambda key, value: {'optimizerDisable': str(value).lower()},
+                    'disable': lambda key, value: {'optimizerDisable': cls._bool_to_str(value)},
                     'exploitChance': lambda key, value: {'optimizerExploitChance': str(value)},
                     'exploitTarget': lambda key, value: {'optimizerExploitTarget': str(value)},
                     'exploitTargetLow': lambda key, value: {'optimizerExploitTargetLow': str(value)},
@@ -1874,8 +1883,8 @@ class Dosini(object):
                 comp['workflowAttributes'].get('memoization', {}).get('disable', {}),
                 required={},
                 optional={
-                    'strong': lambda key, value: {'memoization-disable-strong': str(value).lower()},
-                    'fuzzy': lambda key, value: {'memoization-disable-fuzzy': str(value).lower()},}))
+                    'strong': lambda key, value: {'memoization-disable-strong': cls._bool_to_str(value)},
+                    'fuzzy': lambda key, value: {'memoization-disable-fuzzy': cls._bool_to_str(value)},}))
         flat.update(
             cls._translate_dict_to_dict(
                 comp['workflowAttributes'].get('memoization', {}),
@@ -2061,7 +2070,7 @@ class Dosini(object):
 
         def bool_to_str(key, value):
             # type: (str, bool) -> Dict[str, str]
-            return {key: str(value).lower()}
+            return {key: cls._bool_to_str(value)}
 
         key = 'command'
 
